@@ -1155,6 +1155,7 @@ namespace {
                 {
                     // F-21c: nothing but empty PDUs until the instant is reached
                     rep.excluded = true;
+                    labels.insert( "excluded:F-21c-traffic-held-back-until-the-instant" );
                     for ( int k = 0; k != 40 && instant_pending && cen.connected() && total_events < max_events; ++k )
                         do_event( {}, i );
                 }
